@@ -242,4 +242,7 @@ def tasks(tier):
     for n, nv, ax in lin:
         t.append(dict(harness="h_linear_translate", cfg=dict(n=list(n), nvdim=nv, axis=ax)))
     t.append(dict(harness="h_refusals", cfg={}))
+    if tier != "quick":
+        for x in t:
+            x.setdefault("limits", {}).update(timeout_ms=180000, wall_budget=3000.0)
     return t
